@@ -112,6 +112,17 @@ def _check(ctx, case):
         totals = []
         tot = 0
         for ri, run in enumerate(case['runs']):
+            if ri > 0 and case.get('bad_run_between'):
+                # a run on a container whose traces have another length is refused by the distinguisher: it must leave the bookkeeping untouched
+                bad = np.concatenate([run['samples'], run['samples'][:, :1]], axis=1)
+                try:
+                    an.run(scared.Container(dist.ram_ths(samples=bad, plaintext=run['plaintext'])))
+                except Exception:
+                    pass
+                else:
+                    raise Violation('%s: run() on traces of another length was accepted' % kind, case)
+                if an.processed_traces != tot:
+                    raise Violation('%s: processed_traces = %s after a refused run, %d traces were accepted so far' % (kind, an.processed_traces, tot), case)
             cont = scared.Container(dist.ram_ths(samples=run['samples'], plaintext=run['plaintext']))
             must(case, '%s attack run() #%d with convergence_step=%d' % (kind, ri + 1, step), an.run, cont)
             tot += run['samples'].shape[0]
@@ -181,7 +192,7 @@ def _check(ctx, case):
             if not _same(an.results, fresh.results, exact, rtol) or not _same(an.scores, fresh.scores, exact, rtol):
                 raise Violation('%s: final results/scores with convergence_step=%d differ from those of the same attack without convergence step' % (kind, step), case)
         ctx.count('prefix_attacks_compared')
-    labels = ['kind:' + kind, 'prec:' + case['precision'], 'regime:' + case['regime'], 'runs:%d' % len(case['runs']), 'columns:%s' % (len(P) if len(P) < 5 else '5+'),
+    labels = (['refused_run_between_runs'] if case.get('bad_run_between') else []) + ['kind:' + kind, 'prec:' + case['precision'], 'regime:' + case['regime'], 'runs:%d' % len(case['runs']), 'columns:%s' % (len(P) if len(P) < 5 else '5+'),
               'step_vs_batch:' + ('<' if step < case['batch_size'] else '=' if step == case['batch_size'] else '>'), 'step_divides_total' if tot % step == 0 else 'step_does_not_divide_total']
     if step > tot:
         labels.append('step>total')
@@ -225,7 +236,8 @@ def cases(draw, kind, precision):
         runs.append({'samples': x.astype(tdt if regime == 'exact' or tdt.startswith('float') else 'float64'), 'plaintext': pt})
     model = 'mono%d' % draw(st.integers(0, 2)) if kind == 'dpa' else 'value' if kind == 'tdpa' else draw(st.sampled_from(['value', 'hw']))
     mask = draw(st.sampled_from([0x07, 0x03]))
-    case = {'kind': 'convergence', 'dist': kind, 'precision': precision, 'regime': regime, 'batch_size': bs, 'step': step, 'runs': runs, 'model': model, 'mask': mask,
+    bad_between = nruns > 1 and kind != 'tdpa' and draw(st.integers(0, 2)) == 0
+    case = {'kind': 'convergence', 'bad_run_between': bad_between, 'dist': kind, 'precision': precision, 'regime': regime, 'batch_size': bs, 'step': step, 'runs': runs, 'model': model, 'mask': mask,
             'words': None if kind != 'tdpa' else 0, 'guesses': list(range(draw(st.integers(2, 4)))), 'discriminant': draw(st.sampled_from(['maxabs', 'nanmax', 'abssum']))}
     vmax = mask if model == 'value' else bin(mask).count('1')
     if kind in ('anova', 'nicv', 'snr', 'mia', 'tdpa'):
